@@ -225,9 +225,12 @@ func TestVerif(t *testing.T) {
 		}
 
 		// 1. counter, explicit now
-		for _, s := range counterScens {
+		for si, s := range counterScens { // quick: the second window shape one level shallower
 			s := s
-			res := bfs.Explore(bfs.Config[op]{Name: s.Name, Ops: counterOps(s.W, 1_000_000), Depth: depthOf(r, 4, 5),
+			if r.Thorough() {
+				si = 0
+			}
+			res := bfs.Explore(bfs.Config[op]{Name: s.Name, Ops: counterOps(s.W, 1_000_000), Depth: depthOf(r, 4-si, 5),
 				Shard: r.Shard, NShards: r.NShards, Deadline: r.DeadlineTime(),
 				Run: func(h []op) bfs.Outcome { return runCounter(s.W, s.Base, h) }})
 			res.Merge(r, s.Name)
